@@ -34,6 +34,9 @@ def run(ctx, chk):
              'cache; an object pixel (present) replaces it iff the object has priority or the background colour is 0; the '
              'shade comes from the BG palette / the object palette selected by the cached palette number; the pixel goes to '
              'LY * 160 + x; tile cache, object cache and x advance by one pixel', floor=4)
+    chk.rule('C15.8', 'D', 'tile fetch: the background fetches map cell (next tile x, ((LY + SCY) mod 256) / 8) of the BG map and '
+             'row (LY + SCY) mod 8 of that tile; the window fetches cell (next tile x, (LY - WY) / 8) of the window map and row '
+             '(LY - WY) mod 8; the tile x then advances by one, wrapping at 32', floor=2)
     chk.rule('C15.7', 'D', 'object line cache, per object pixel: a cell is written only while it is empty and the pixel colour '
              'is not 0; it then holds present | priority | palette << 2 | colour, with the colour taken from the top of the '
              'row data, which shifts by one pixel per step; the cell is the object X + pixel number', floor=3)
@@ -269,6 +272,8 @@ def run(ctx, chk):
                  file, None)
     # ---- rule 5: object selection (one iteration of the OAM scan)
     object_scan(ctx, chk, facts, prog, file, elems)
+    # ---- rule 8: which tile row is fetched next (background with scroll, window)
+    tile_fetch(ctx, chk, facts, prog, file)
     # ---- rule 7: the per-line object cache
     object_cache(ctx, chk, facts, prog, file)
     # ---- rule 6: one pixel of the mode-3 loop
@@ -555,6 +560,71 @@ def pixel_mix(ctx, chk, facts, prog, file):
         opos = OBJ[3][2]
         if not ocst or not (bvproof.equal_under(ocst[-1][3], O(64, 'add', opos, C(64, 1)), env, 64) is True):
             adv_bad = adv_bad or 'the object cache position does not advance by one per pixel'
+    # ---- rule 9: which pixel of the 8-pixel tile row a 4-dot group starts on
+    phase_bad = None
+    nphase = 0
+    phase_memo = set()
+    SCX = S(8, 'video.scroll_x', ('field', OW, 'scroll_x', 'u8'))
+    WX = S(8, 'video.window_x', ('field', OW, 'window_x', 'u8'))
+    for r, sts in its:
+        env = r.state.env
+        inits = {}
+        for e in r.state.events:
+            if e[0] == 'loopinit' and e[1] not in inits and e[2] != e[1]:
+                inits[e[1]] = e[2]
+        # the pixel-in-tile counter is the loop variable tested against 8; x is the one that indexes the line buffer
+        tvars = [d[0][3] for d in r.state.decisions if d[0][0] == 'o' and d[0][2] == 'ult' and d[0][4] == C(64, 8)
+                 and d[0][3][0] == 's' and d[0][3][2].startswith('loopvar:')]
+        xvars = [x for x in syms_of(sts[0][2][-1][1]) if x[2].startswith('loopvar:')] if len(sts) == 1 else []
+        if not tvars or len(xvars) != 1 or tvars[0] not in inits or xvars[0] not in inits:
+            continue
+        def entry(v):
+            # the value the variable has when the dot group starts: through the summaries of the nested loops
+            for _ in range(4):
+                if v in inits and inits[v] != v:
+                    v = inits[v]
+                else:
+                    break
+            return v
+        T0, D0 = entry(tvars[0]), entry(xvars[0])
+        if any(x[2].startswith('loopvar:') for x in syms_of(T0) | syms_of(D0)):
+            continue
+        wl = [x for d in r.state.decisions for x in syms_of(d[0]) if x[3] and x[3][0] == 'discr' and 'current_window_line' in x[2]]
+        bg = O(64, 'and', O(64, 'add', D0, O(64, 'zext', O(8, 'and', SCX, C(8, 7)))), C(64, 7))
+        win = O(64, 'and', O(64, 'sub', O(64, 'add', D0, C(64, 7)), O(64, 'zext', WX)), C(64, 7))
+        inwin = O(1, 'uge', O(64, 'add', D0, C(64, 7)), O(64, 'zext', WX))
+        cases = []
+        if wl:
+            cases.append(([(wl[0], 0)], bg, 'no window on this line'))
+            cases.append(([(wl[0], 1), (inwin, 1)], win, 'window line, dot + 7 >= WX'))
+            cases.append(([(wl[0], 1), (inwin, 0)], bg, 'window line, dot + 7 < WX'))
+        else:
+            cases.append(([], bg, 'background'))
+        for assume, want, label in cases:
+            e2 = env.copy()
+            if not all(e2.assume_eq(t_, v_) for t_, v_ in assume):
+                continue
+            rel = bvproof.relevant(e2, (T0, D0, WX, SCX))
+            mkey = (T0, D0, label, tuple(rel.log) if hasattr(rel, 'log') else None)
+            if mkey in phase_memo:
+                continue
+            phase_memo.add(mkey)
+            if not absint.feasible(rel):
+                continue
+            nphase += 1
+            if not (bvproof.equal_under(T0, want, e2, 64) is True):
+                phase_bad = phase_bad or ('a 4-dot group starting at dot d begins at tile pixel %s (%s), expected %s'
+                                          % (fmt(T0)[:80], label, '(d + 7 - WX) & 7' if want is win else '(d + SCX) & 7'))
+    if nphase:
+        chk.rule('C15.9', 'D', 'pixel phase: a 4-dot group that starts at dot d begins on tile pixel (d + SCX) mod 8 of the '
+                 'background, or (d + 7 - WX) mod 8 of the window once d + 7 >= WX on a window line', floor=1)
+        if phase_bad:
+            chk.fail('C15.9', 'phase', 'mode-3 dot group: %s' % phase_bad, file, None)
+        else:
+            chk.ok('C15.9', 'phase', sample={'cases decided': nphase})
+    else:
+        chk.rule('C15.9', 'D', 'pixel phase at the start of a 4-dot group', floor=1)
+        chk.error('C15.9: the pixel-in-tile counter of the mode-3 loop was not identified (no verdict on the phase clause)')
     if seen != {'obj', 'bg'} and not mix_bad:
         mix_bad = 'pixel steps found only for %s' % sorted(seen)
     for key, bad, what in (('mix', mix_bad, 'object pixel wins iff present and (priority or BG colour 0)'),
@@ -671,3 +741,60 @@ def object_cache(ctx, chk, facts, prog, file):
             chk.fail('C15.7', key, 'object line cache: %s' % (bad or 'no writing iteration found'), file, None)
         else:
             chk.ok('C15.7', key, sample={'clause': what, 'iteration paths': len(its)})
+
+
+def tile_fetch(ctx, chk, facts, prog, file):
+    from .. import bvproof
+    GTR = V + 'get_tile_row'
+
+    def fld(name, bits, ty):
+        return S(bits, 'video.' + name, ('field', OW, name, ty))
+    LY, SCY, WY = fld('current_line', 8, 'u8'), fld('scroll_y', 8, 'u8'), fld('window_y', 8, 'u8')
+    TX = fld('next_cached_tile_x', 64, 'usize')
+    for key, fn, mapf, yline in (('background', V + 'cache_next_tile_row', 'bg_map_offset', O(8, 'add', LY, SCY)),
+                                 ('window', V + 'cache_next_window_tile_row', 'window_map_offset', O(8, 'sub', LY, WY))):
+        if fn not in prog.fns:
+            chk.error('C15.8: %s not found' % fn)
+            continue
+        ipx = absint.Interp(facts, opaque=[GTR], trust_asserts=('overflow', 'bounds'))
+        st = ipx.new_state()
+        me = ipx.arg_object(st, 'video')
+        st.env.assume(TX, AV(64, 0, 31))
+        MAP = fld(mapf, 64, 'usize')
+        st.env.assume(MAP, AV(64, 0x1800, 0x1c00))
+        rs = ipx.run(fn, [me, S(0, 'vram')], st)
+        bad = None
+        n = 0
+        for r in rs:
+            if r.status != 'ok':
+                bad = bad or '%s can diverge (%s)' % (fn.split('::')[-1], r.status)
+                continue
+            n += 1
+            env = r.state.env
+            calls = [e for e in r.state.events if e[0] == 'call' and e[1] == GTR]
+            if len(calls) != 1:
+                bad = bad or 'fetches %d tile rows' % len(calls)
+                continue
+            tile_a, row_a = calls[0][2][2], calls[0][2][3]
+            y64 = O(64, 'zext', yline)
+            want_row = O(64, 'and', y64, C(64, 7))
+            if not (T.is_int(row_a) and bvproof.equal_under(row_a, want_row, env, 64) is True):
+                bad = bad or 'fetches row %s of the tile, expected %s' % (fmt(row_a)[:70], fmt(want_row)[:70])
+            cells = [x for x in syms_of(tile_a) if x[3] and x[3][0] == 'elem'] if T.is_int(tile_a) else []
+            if len(cells) != 1 or not (bvproof.equal_under(tile_a, O(64, 'zext', cells[0]), env, 64) is True):
+                bad = bad or 'the tile number is %s, not one byte of the tile map' % fmt(tile_a)[:70]
+                continue
+            want_cell = O(64, 'add', MAP, O(64, 'add', TX, O(64, 'mul', O(64, 'shr', y64, C(64, 3)), C(64, 32))))
+            if not (bvproof.equal_under(cells[0][3][2], want_cell, env, 64) is True):
+                bad = bad or 'reads map cell %s, expected %s + x + 32 * (line / 8)' % (fmt(cells[0][3][2])[:90], mapf)
+            tcs = [e for e in r.state.events if e[0] == 'store' and e[2] and e[2][-1][1] == 'current_tile_cache']
+            if not tcs or tcs[-1][3] != calls[0][3]:
+                bad = bad or 'the fetched row is not what ends up in the tile cache'
+            txs = [e for e in r.state.events if e[0] == 'store' and e[2] and e[2][-1][1] == 'next_cached_tile_x']
+            want_tx = O(64, 'and', O(64, 'add', TX, C(64, 1)), C(64, 31))
+            if not txs or not (bvproof.equal_under(txs[-1][3], want_tx, env, 64) is True):
+                bad = bad or 'next tile x becomes %s, expected (x + 1) mod 32' % (fmt(txs[-1][3])[:60] if txs else 'unchanged')
+        if bad or not n:
+            chk.fail('C15.8', key, '%s: %s' % (fn.split('::')[-1], bad or 'no path'), file, None)
+        else:
+            chk.ok('C15.8', key, sample={'map cell': '%s + x + 32 * (line >> 3)' % mapf, 'row': 'line & 7', 'x': '(x + 1) mod 32'})
